@@ -41,7 +41,8 @@ RULE = ("Hypothesis-generated genuine devices (random root / device / attestatio
         "1..4 pages, legacy and current signer framing; SGX envelopes with QE auth data 1..1000 "
         "bytes and PEM chains of 2..3 certificates) run through the real command sequences "
         "onboard -> attestation -> pubkeys -> verify (Ledger) and attestation -> pubkeys -> "
-        "verify (SGX), with 0..1 single-point alteration of a device answer or of the root of "
+        "verify (SGX), optionally a second Ledger attestation run that starts from the first "
+        "run's file, with 0..1 single-point alteration of a device answer or of the root of "
         "trust; non-trivial = altered case, or >= 2 message pages; distinct by case fingerprint")
 ASSUMPTIONS = [
     "the genuine device is simulated (vlib/genuine.py): Ledger endorsement hierarchy and SGX "
